@@ -917,6 +917,40 @@ fn long_string_family() -> Vec<String> {
             }
         }
     }
+    // other line breaks and white space: CR LF, LF CR, lone CR, TAB, FF, VT — once and six or more
+    // times, in the middle, at the beginning and at the end — at the lengths around both thresholds.
+    // Every one of these forbids the long-bracket form (a Lua lexer folds the line breaks to LF).
+    for &len in &[20usize, 21, 60, 61, 90] {
+        for brk in ["\r\n", "\n\r", "\r", "\t", "\u{c}", "\u{b}"] {
+            for &count in &[1usize, 6, 7] {
+                for placement in 0..3 {
+                    let mut body = String::new();
+                    let mut placed = 0;
+                    if placement == 1 {
+                        body.push_str(brk);
+                        placed += 1;
+                    }
+                    let mut i = 0;
+                    while body.len() + (if placement == 2 { brk.len() } else { 0 }) < len {
+                        if placed < count - (if placement == 2 { 1 } else { 0 }) && i % 3 == 2 {
+                            body.push_str(brk);
+                            placed += 1;
+                        } else {
+                            body.push(*b"key value-x".get(i % 11).unwrap() as char);
+                        }
+                        i += 1;
+                    }
+                    if placement == 2 {
+                        body.push_str(brk);
+                    }
+                    out.push(body);
+                }
+            }
+        }
+        // mixed with plain line feeds (>= 6 LF: the 20-byte rule) and with `]`
+        out.push(format!("{}\r{}", "a\nb\n".repeat(4), "x".repeat(len.saturating_sub(17))));
+        out.push(format!("{}\r\n]", "a\nb\n".repeat(4)) + &"y".repeat(len.saturating_sub(19)));
+    }
     // controls: the same sizes with a character that forbids the long-bracket form
     out.push(format!("{}\t", "tab ".repeat(16)));
     out.push(format!("{}\u{e9}", "accent ".repeat(10)));
@@ -928,7 +962,7 @@ fn long_string_family() -> Vec<String> {
 fn directed_long_strings(ctx: &mut Ctx, rng: &mut Rng) {
     directed_strings(ctx, rng, long_string_family(), "directed-long-strings");
     ctx.report.exhaustive.insert(
-        "long-string family (lengths 19/20/21/59/60/61/90 x 0/5/6/7 line feeds x 7 endings x 4 beginnings) as key, value and array element, per format, bundled with dense/readable/retain_lines".into(),
+        "long-string family (lengths 19/20/21/59/60/61/90 x 0/5/6/7 line feeds x 7 endings x 4 beginnings; lengths 20/21/60/61/90 x CRLF/LFCR/CR/TAB/FF/VT x 1/6/7 occurrences x 3 placements) as key, value, array element and .txt content, per format, bundled with dense/readable/retain_lines".into(),
         true,
     );
 }
